@@ -7,6 +7,7 @@ import XmppVerif.Drv.C14
 import XmppVerif.Drv.C15
 import XmppVerif.Drv.C16
 import XmppVerif.Drv.C17
+import XmppVerif.Drv.C18
 import XmppVerif.Drv.C19
 import XmppVerif.Drv.C20
 /-
@@ -28,6 +29,7 @@ def handlers : List (String × Handler) := [
   ("C15", XmppVerif.Drv.C15.handler),
   ("C16", XmppVerif.Drv.C16.handler),
   ("C17", XmppVerif.Drv.C17.handler),
+  ("C18", XmppVerif.Drv.C18.handler),
   ("C19", XmppVerif.Drv.C19.handler),
   ("C20", XmppVerif.Drv.C20.handler)
 ]
